@@ -56,6 +56,13 @@ def r_raise_c03(ctx):
                         what="DataPath.get_data / Data.get")
 
 
+def r_pure_c03(ctx):
+    merged, labels = P.pure_jobs(ctx)
+    keep = [l for l in labels if l in ("get_data", "data_get", "part_filter", "map_filter", "list_filter")]
+    return P.mutation_rule("R-PURE/C03", [(l, merged[l]) for l in keep], ALL_ROOTS,
+                           "the path was resolved (the path, its parts and their conditions must not remember anything from one node or document to the next)", floor=10)
+
+
 # -- C07 -----------------------------------------------------------------------------------
 def r_raise_c07_validate(ctx):
     return R.raise_rule("R-RAISE/C07:Schema.validate", R.validate_merged(ctx), R.EXEMPT, floor=12, what="Schema.validate")
@@ -175,7 +182,7 @@ PROPERTIES = {
         assumptions=COMMON_ASSUMPTIONS + [SHAPE_ASSUMPTION],
     ),
     "C03": dict(
-        rules=[r_raise_c03, S2.rule_deleg, S2.rule_lockstep],
+        rules=[r_raise_c03, S2.rule_deleg, S2.rule_lockstep, r_pure_c03],
         explanation=(
             "Clauses decided: (1) 'a part that does not apply to a node matches nothing rather than raising' - every operation reachable from DataPath.get_data / Data.get "
             "on a document-derived value, and every raise depending on one (container-kind checks of the parts, Data.__init__, key/index refusal), is covered by the per-node handler "
